@@ -501,7 +501,9 @@ register("C05", {
             "variant is its own execution, all are non-trivial; distinct = distinct event-log "
             "digest; executors asyncio, trio, threads; seams L1 and L2 (real AnyIOBackend, "
             "TrioBackend, SyncBackend); an extra 'evictor' base in which the target's arrival "
-            "evicts 2-3 expired connections; after every variant a reuse probe (one more "
+            "evicts 2-3 expired connections; half of the bases carry an async 'trace' callback "
+            "that awaits once per event (cancellations land inside it); after every variant "
+            "a reuse probe (one more "
             "request to every origin the scenario used must be served) and a capacity probe",
     "assumptions": ["fault positions are enumerated completely per base; bases are sampled",
                     "behavioural probes (one more request to the used origins, fresh requests to "
